@@ -706,3 +706,23 @@ CONTRACTS[CI + 'clifford_rotation_gate#noqubits'] = dict(
           'len(result.generator.g) == MaskCnt(Repeat2(%s), len(generator.g))' % _rgSM]),
     ]},
 )
+
+# ------------------------------------------------------------------ C09 / C10: compiling a generator gate = tables of the rotation and of its inverse
+_crm = CONTRACTS[ST + 'clifford_rotation_map']['ensures']
+GATE_GEN_ANY = {'cls': 'CliffordGate', 'fields': {'n': 'int', 'generator': dict(PAULI, exact=False), 'forward_map': 'none', 'backward_map': 'none'}}
+CONTRACTS[CI + 'CliffordGate.compile#generator'] = dict(
+    params=[('self', GATE_GEN_ANY)],
+    requires=['len(self.generator.g) % 2 == 0', 'bits1(self.generator.g)', '0 <= self.generator.p <= 3'],
+    ensures=[e.replace('result.', 'self.forward_map.').replace('gen.', 'self.generator.') for e in _crm[:5]] +
+            [e.replace('result.', 'self.backward_map.').replace('gen.p', '((self.generator.p + 2) % 4)').replace('gen.', 'self.generator.') for e in _crm[:5]] +
+            ['same_loc(result, self)'],
+    modifies=[], modifies_scalar=['self.forward_map', 'self.backward_map'], returns='=self',
+)
+
+# ------------------------------------------------------------------ C20: selection from a list by integer and by slice
+CONTRACTS[PA + 'PauliList.__getitem__#int'] = dict(
+    params=[('self', dict(PLIST, exact=True)), ('item', 'int')],
+    requires=['0 <= item < rows(self.gs)', 'len(self.ps) == rows(self.gs)'],
+    ensures=['len(result.g) == cols(self.gs)', 'forall(c, 0, cols(self.gs), result.g[c] == self.gs[item][c])', 'result.p == self.ps[item]'],
+    modifies=[], returns=dict(PAULI, exact=False),
+)
